@@ -21,7 +21,7 @@ from sx.run import Unit
 
 from kits import rib as K
 from kits import session as S
-from kits.rib import Pool, PeerTable, Table, Sender, mk_route, mk_rib, cached_table, diff, same
+from kits.rib import Pool, PeerTable, Table, Sender, mk_route, mk_rib, cached_table, diff, same, StaleWatch
 from sx.core import sx_eq, s_not
 
 import exabgp.rib as ribpkg
@@ -189,9 +189,12 @@ def _h_delta(ctx, n_old, n_new, n_api, mode, dom=3, grouped=False, pool_names=('
         sel = ctx.choice('old%d.attr' % i, len(pool))
         old.append(mk_route(ctx, 'old%d.p' % i, dom, pool, sel))
     old_n.routes = list(old)
+    watch = StaleWatch(rib)
     parse_step(old_n)
+    watch.after('parse')
     peer = mk_peer(old_n, True)
     main_session_start(peer)
+    watch.after('session-start')
     for r in old:
         ghost.set_route(r)
     tx.send(None)
@@ -205,10 +208,12 @@ def _h_delta(ctx, n_old, n_new, n_api, mode, dom=3, grouped=False, pool_names=('
             r = mk_route(ctx, 'api%d.p' % j, dom, pool, 0)
             rib.del_from_rib(r)
             ghost.delete(r.nlri.index())
+            watch.after('api-withdraw')
         else:
             r = mk_route(ctx, 'api%d.p' % j, dom, pool, pool.names.index(kind.split(':')[1]))
             rib.add_to_rib(r)
             ghost.set_route(r)
+            watch.after('api-announce')
     pre = ctx.pick('pre', PRE)
     if pre == 'flushed':
         tx.send(None)
@@ -235,6 +240,7 @@ def _h_delta(ctx, n_old, n_new, n_api, mode, dom=3, grouped=False, pool_names=('
     new_n.routes = list(new)
     new_n.previous = old_n               # Configuration._commit_reload
     parse_step(new_n)
+    watch.after('parse')
     for r in new:
         g = ghost.get(r.nlri.index())
         if g is not None and any(same(o.nlri.index(), r.nlri.index()) for o in old):
@@ -274,6 +280,7 @@ def _h_delta(ctx, n_old, n_new, n_api, mode, dom=3, grouped=False, pool_names=('
             # reconfigure applied the delta at once (GitHub #1126); later the session comes up
             peer.fsm.state = FSM.ESTABLISHED
             main_session_start(peer)           # replace_restart([], routes)
+    watch.after('reload')
     ctx.check('reload-handed-over', peer.neighbor is new_n and peer._neighbor is None and new_n.previous is None,
               sig='C17:delta:neighbor-not-handed-over:%s' % mode)
 
@@ -282,7 +289,10 @@ def _h_delta(ctx, n_old, n_new, n_api, mode, dom=3, grouped=False, pool_names=('
     cached = cached_table(rib)
     info = {'mode': mode, 'pre': pre, 'api': api_kinds, 'old': [K.row_of_route(r) for r in old], 'new': [K.row_of_route(r) for r in new],
             'peer': table.render(), 'adj-rib-out': cached.render(), 'expected': ghost.render(), 'stale_pending_entries_seen': tx.stale_seen}
-    cause = 'stale-pending-entry' if tx.stale_seen > 0 else 'delta'
+    # F2 (known): an announce (API announce, the parser queueing a configured route, replace_reload force-adding one)
+    # supersedes a still-queued announce of the same prefix inside _update_rib.  A stale entry left inside the withdraw
+    # primitive or outside both primitives is something else and keeps its own signature.
+    cause = watch.cause(tx.stale_seen, 'delta')
 
     d = diff(table, ghost)
     wd_extra = [x for x in d if x[0] == 'extra' and any(w and same(x[1][0], r.nlri.index()) for r, w in zip(new, new_wd))]
